@@ -17,6 +17,7 @@ import (
 
 	"github.com/cube2222/octosql/config"
 	"github.com/cube2222/octosql/plugins/repository"
+	"github.com/cube2222/octosql/verifhook"
 )
 
 type PluginManager struct {
@@ -186,13 +187,16 @@ func (m *PluginManager) Install(ctx context.Context, name string, constraint *se
 
 	newPluginDir := filepath.Join(getPluginDir(), repoSlug, fmt.Sprintf("octosql-plugin-%s", name), version.Number.String())
 
+	verifhook.Point("install.before_removeall")
 	if err := os.RemoveAll(newPluginDir); err != nil {
 		return fmt.Errorf("couldn't remove old plugin directory: %w", err)
 	}
 
+	verifhook.Point("install.after_removeall")
 	if err := os.MkdirAll(newPluginDir, os.ModePerm); err != nil {
 		return fmt.Errorf("couldn't create plugins directory: %w", err)
 	}
+	verifhook.Point("install.after_mkdirall")
 	archiveFilePath := filepath.Join(newPluginDir, "archive.tar.gz")
 
 	// Anonymous function to take care of defers before we move forward.
@@ -212,28 +216,34 @@ func (m *PluginManager) Install(ctx context.Context, name string, constraint *se
 		if err != nil {
 			return fmt.Errorf("couldn't create plugin archive file: %w", err)
 		}
+		verifhook.Point("install.archive_created")
 		defer f.Close()
 
 		if _, err := io.Copy(f, res.Body); err != nil {
 			return fmt.Errorf("couldn't download plugin archive: %w", err)
 		}
+		verifhook.AfterWrite("install.archive_written", archiveFilePath)
 		return nil
 	}()
 	if err != nil {
 		return err
 	}
 
+	verifhook.Point("install.archive_closed")
 	if err := archiver.NewTarGz().Unarchive(archiveFilePath, newPluginDir); err != nil {
 		return fmt.Errorf("couldn't unarchive plugin archive: %w", err)
 	}
 
+	verifhook.AfterWrite("install.after_unarchive", filepath.Join(newPluginDir, fmt.Sprintf("octosql-plugin-%s", name)))
 	if err := os.Remove(archiveFilePath); err != nil {
 		return fmt.Errorf("couldn't remove plugin archive: %w", err)
 	}
 
+	verifhook.Point("install.after_remove_archive")
 	if err := registerFileExtensions(plugin.Name, plugin.FileExtensions); err != nil {
 		return fmt.Errorf("couldn't register file extensions: %w", err)
 	}
+	verifhook.Point("install.done")
 
 	return nil
 }
